@@ -83,6 +83,9 @@ class Grundig16(protocol_base.IrProtocolBase):
         normalized_code = []
         code = data[:]
         original_code = data[:]
+        if len(code) <= len(self._lead_in):
+            raise DecodeError('Invalid lead in')
+
         for i, timing in enumerate(self._lead_in):
             if not self._match(code[i], timing):
                 raise DecodeError('Invalid lead in')
@@ -105,6 +108,9 @@ class Grundig16(protocol_base.IrProtocolBase):
                     timings = code[:len(bursts)]
                 except ValueError:
                     raise DecodeError
+
+                if len(timings) < len(bursts):
+                    continue
 
                 for j, burst in enumerate(bursts):
                     timing = timings[j]
